@@ -923,7 +923,7 @@ func (e *Env) trCall(n *ECall) Val {
 		if !ok2 {
 			e.fail("ret(%q): no such call seen yet", s.V)
 		}
-		return Val{T: u.heapCur(e.cur, g), S: srt}
+		return Val{T: u.heapCur(e.cur, g), S: srt, Ty: u.ghostTy[g]}
 	case "count", "counttrue0", "counttrue1":
 		s, ok := n.Args[0].(*EStr)
 		if !ok {
